@@ -80,10 +80,25 @@ func execC17(r *RNG, c *Case) {
 				return a + "|" + b, nil
 			}
 			return a, nil
-		case "enccomp":
-			return fastaio.FastaRecord{Seq: seq}.Encode().Complement().Decode().Seq, nil
-		case "encrevcomp":
-			return fastaio.FastaRecord{Seq: seq}.Encode().ReverseComplement().Decode().Seq, nil
+		case "enccomp", "encrevcomp":
+			// the result is kept while further records are complemented (a batch of records, a consumer that lags): it
+			// must still be what it was
+			rec := fastaio.FastaRecord{Seq: seq}.Encode()
+			var res fastaio.EncodedFastaRecord
+			if c.Get("kind") == "enccomp" {
+				res = rec.Complement()
+			} else {
+				res = rec.ReverseComplement()
+			}
+			snap := append([]byte{}, res.Seq...)
+			other := fastaio.FastaRecord{Seq: strings.Repeat("N", len(seq))}.Encode()
+			o1 := other.Complement()
+			o2 := fastaio.FastaRecord{Seq: seq + "ACGT"}.Encode().ReverseComplement()
+			_, _ = o1, o2
+			if string(res.Seq) != string(snap) {
+				return string(fastaio.EncodedFastaRecord{Seq: snap}.Decode().Seq) + "|changed-by-a-later-call|" + res.Decode().Seq, nil
+			}
+			return res.Decode().Seq, nil
 		}
 		return "", nil
 	})
